@@ -29,6 +29,7 @@ type c05GenCfg struct {
 	conf       bool     // conf rule: restrict to what the conf sentence of the statement covers
 	noCompiled bool     // no compiled struct types (their tags and keys are fixed)
 	collHeavy  bool     // more slice and map fields (hand-built map documents: the element routes are the type-sensitive ones)
+	dotted     bool     // some keys are written "parent.child" (not for conf / http / caller-made key functions)
 	maxDepth   int
 }
 
@@ -146,21 +147,36 @@ func c05GenFields(rt *rapid.T, cfg *c05GenCfg, depth, maxN int, prefix string) [
 		}
 		fs[i] = c05GenField(rt, cfg, depth, prefix, i)
 	}
-	if !wide && len(fs) >= 2 && rapid.IntRange(0, 9).Draw(rt, "optdep") == 0 {
+	if !wide && len(fs) >= 2 && rapid.IntRange(0, 5).Draw(rt, "optdep") == 0 {
 		// optional=<sibling key> / optional=!<sibling key>: optional depending on another field
 		i := rapid.IntRange(0, len(fs)-1).Draw(rt, "optdepfield")
-		if rapid.IntRange(0, 2).Draw(rt, "optdepconstrained") != 0 {
+		if rapid.IntRange(0, 5).Draw(rt, "optdepconstrained") != 0 {
 			// prefer a field that declares range= / options=
+			found := false
 			for k := range fs {
-				if fs[(i+k)%len(fs)].Rng != nil || len(fs[(i+k)%len(fs)].Opts) > 0 {
-					i = (i + k) % len(fs)
+				if fs[(i+k)%len(fs)].Rng != nil {
+					i, found = (i+k)%len(fs), true
 					break
+				}
+			}
+			for k := 0; k < len(fs) && !found; k++ {
+				if len(fs[(i+k)%len(fs)].Opts) > 0 {
+					i, found = (i+k)%len(fs), true
 				}
 			}
 		}
 		j := rapid.IntRange(0, len(fs)-2).Draw(rt, "optdepon")
 		if j >= i {
 			j++
+		}
+		if rapid.IntRange(0, 3).Draw(rt, "optdeprequired") != 0 {
+			// prefer a dependency that the document carries (a required scalar)
+			for k := range fs {
+				if x := (j + k) % len(fs); x != i && !fs[x].Opt && fs[x].Def == nil && !fs[x].Anon && c05IsScalar(fs[x].T.K) {
+					j = x
+					break
+				}
+			}
 		}
 		a, b := &fs[i], &fs[j]
 		if a.Tag == cfg.tag && b.Tag == cfg.tag && !a.Anon && !b.Anon && !a.Env && !a.Inh && a.FK == "" && a.T.K != "text" {
@@ -286,6 +302,9 @@ func c05GenField(rt *rapid.T, cfg *c05GenCfg, depth int, prefix string, idx int)
 	f.Tag = cfg.tag
 	f.KS = c05Pick(rt, "keystyle", cfg.keyStyles)
 	c05GenOptions(rt, &f)
+	if cfg.dotted && prefix == "" && !f.Env && !f.Inh && rapid.IntRange(0, 29).Draw(rt, "dottedkey") == 0 {
+		f.KS = "dotted"
+	}
 	if structDefault {
 		d := c05Pick(rt, "structdef", []string{"[{}]", "[{},{}]", "[{},{},{}]"})
 		if k := c05FirstSettable(f.T.E.F); k != "" && rapid.Bool().Draw(rt, "structdefkey") {
@@ -575,6 +594,7 @@ type c05DocGen struct {
 	wideKeys bool // keys of map-typed fields from the full alphabet
 	allStr   bool // every scalar is rendered as a string (documents for WithStringValues unmarshalers)
 	big      bool // this case may still place its one big value (a long string or a long array)
+	yamlNums bool // YAML-only number spellings (.inf -.inf .nan): the document has no JSON form
 	// focus: one field of the object is hostile (boundary / ill-typed / absent ...), the rest is
 	// plain: a must-fail value is only observable as a wrong acceptance when everything else is acceptable
 	focus   bool
@@ -824,6 +844,9 @@ func (g *c05DocGen) boundary(t *c05Typ, f *c05Fld) c05JV {
 				"340282346638528859811704183484516925440", "340282356779733661637539395458142568447", "340282356779733661637539395458142568448",
 				"16777216", "16777217", "-16777217")
 			c = append(c, c05PowerSet()...)
+		}
+		if g.yamlNums && rapid.IntRange(0, 9).Draw(rt, "yamlnum") == 0 {
+			return c05Num(c05Pick(rt, "yamlnumv", []string{".inf", "-.inf", "+.inf", ".nan", ".Inf", ".NaN", "0x10", "0o17", "1_000", "0b11"}))
 		}
 		var cc []string // candidates derived from the field's own constraint
 		if f != nil && f.Rng != nil {
@@ -1133,6 +1156,21 @@ func (g *c05DocGen) member(f *c05Fld, i, depth int, m *[]c05KV) {
 		return
 	}
 	key := f.key(i)
+	if f.KS == "dotted" && f.Tag != "" && f.Tag != "-other" && f.FK == "" {
+		// "parent.child": whatever is generated for the field is put into a nested object
+		start := len(*m)
+		flat := !g.plain && rapid.IntRange(0, 5).Draw(rt, "dottedflat") == 0 // the parent key holds the value itself, no object
+		defer func() {
+			pc := strings.SplitN(key, ".", 2)
+			for j := start; j < len(*m); j++ {
+				if (*m)[j].K == key && flat {
+					(*m)[j].K = pc[0]
+				} else if (*m)[j].K == key {
+					(*m)[j] = c05KV{K: pc[0], V: c05Obj(c05KV{K: pc[1], V: (*m)[j].V})}
+				}
+			}
+		}()
+	}
 	mayBeAbsent := f.Opt || f.Def != nil || (f.Inh && depth > 1) || (f.Env && f.EV != nil && *f.EV != "")
 	var names []string
 	var weights []int
@@ -1291,7 +1329,7 @@ func c05GenCaseEP(rt *rapid.T, ep string) c05Case {
 			Str: rapid.IntRange(0, 9).Draw(rt, "custr") < 5, Canon: c05Pick(rt, "cucanon", []string{"", "", "id", "lower", "upper"})}
 		tag = c.CU.Tag
 	}
-	cfg := &c05GenCfg{tag: tag, keyStyles: c05AllStyles, maxDepth: 3, collHeavy: ep == "native"}
+	cfg := &c05GenCfg{tag: tag, keyStyles: c05AllStyles, maxDepth: 3, collHeavy: ep == "native", dotted: c.CU == nil}
 	if c.CU != nil && c.CU.Str {
 		// string-valued sources carry scalars: flat shapes of scalars and pointers to scalars
 		n := rapid.IntRange(1, 6).Draw(rt, "nfields")
